@@ -372,3 +372,26 @@ def extra_checks(rep, pid, ledger, known):  # noqa: F811
     from contracts import vmdk as _vm
 
     driver.triage(rep, failed, lambda n, q: _vm.replay(rep, n, q), ledger, known)
+
+
+def bounded(rep, pid, known):
+    """string-processing half (DiskDescriptor.parse / ExtentDescriptor.__post_init__): bounded stand-in, never counted as proved"""
+    import os
+    import subprocess
+
+    from replay.harness import PY, VERIF
+
+    n = 1500 if rep.tier == "thorough" else 300
+    env = dict(os.environ, PYTHONPATH=f"{rep.repo}:{VERIF}")
+    try:
+        p = subprocess.run([PY, "-m", "replay.descr_corpus", str(rep.seed), str(n)], capture_output=True, text=True, timeout=300, env=env, cwd=VERIF)
+        res = json.loads(p.stdout)
+    except Exception as e:  # noqa: BLE001
+        rep.errors.append(f"descriptor corpus failed to run: {type(e).__name__}: {e}")
+        return
+    rep.bounded.append({"block": "c10.descriptor_strings", "level": "bounded (generated descriptors on the real parser; NOT counted as proved)", "evaluations": res["evaluations"],
+                        "distinct_nontrivial": res["distinct"], "rule": res["rule"], "failures": res["n_failures"]})
+    for f in res["failures"][:2]:
+        pth = driver.write_replay(pid, "bounded.descriptor_strings", {"property": pid, **f})
+        if not any(v[0] == pth for v in rep.violations):
+            rep.violations.append((pth, f"DiskDescriptor.parse on a generated descriptor: {f['problems'][0][:200]}", False))
